@@ -466,52 +466,52 @@ impl Avfx {
                     avfx.ags_enabled = read_bool(&mut cursor)?;
                 }
                 AvfxData::NumSchedulers => {
-                    todo!()
+                    // not parsed yet: the block is skipped as a whole below
                 }
                 AvfxData::NumTimelines => {
-                    todo!()
+                    // not parsed yet: the block is skipped as a whole below
                 }
                 AvfxData::NumEmitters => {
-                    todo!()
+                    // not parsed yet: the block is skipped as a whole below
                 }
                 AvfxData::NumParticles => {
-                    todo!()
+                    // not parsed yet: the block is skipped as a whole below
                 }
                 AvfxData::NumEffectors => {
-                    todo!()
+                    // not parsed yet: the block is skipped as a whole below
                 }
                 AvfxData::NumBinders => {
-                    todo!()
+                    // not parsed yet: the block is skipped as a whole below
                 }
                 AvfxData::NumTextures => {
-                    todo!()
+                    // not parsed yet: the block is skipped as a whole below
                 }
                 AvfxData::NumModels => {
-                    todo!()
+                    // not parsed yet: the block is skipped as a whole below
                 }
                 AvfxData::Scheduler => {
-                    todo!()
+                    // not parsed yet: the block is skipped as a whole below
                 }
                 AvfxData::Timeline => {
-                    todo!()
+                    // not parsed yet: the block is skipped as a whole below
                 }
                 AvfxData::Emitter => {
-                    todo!()
+                    // not parsed yet: the block is skipped as a whole below
                 }
                 AvfxData::Particle => {
-                    todo!()
+                    // not parsed yet: the block is skipped as a whole below
                 }
                 AvfxData::Effector => {
-                    todo!()
+                    // not parsed yet: the block is skipped as a whole below
                 }
                 AvfxData::Binder => {
-                    todo!()
+                    // not parsed yet: the block is skipped as a whole below
                 }
                 AvfxData::Texture => {
-                    todo!()
+                    // not parsed yet: the block is skipped as a whole below
                 }
                 AvfxData::Model => {
-                    todo!()
+                    // not parsed yet: the block is skipped as a whole below
                 }
             }
             let new_pos = cursor.position();
